@@ -585,9 +585,68 @@ def run_c03(ctx):
     results = run_cases(ctx, "C03", plan)
     judge(ctx, "C03", plan, results)
     multi_runs(ctx, "C03")
+    default_format_runs(ctx)
     # ---- against the real server binary (its own clock): client -n N puts N requests in flight
     real_server_runs(ctx)
     proof_verdict(ctx)
+
+
+def default_format_runs(ctx):
+    """the output formats a user actually sees: the default strftime format and -j JSON (with -z, UTC),
+    parsed back and compared with the signed midpoint (the other runs use -f '%s %f')"""
+    import calendar, json as js, time as tm
+    r = ctx.rng
+    plan = []
+    for ver in ("Google", "RfcDraft13"):
+        for secs in (0, 86399, 951782400, 1700000000, 2**31, 4102444800, 253402300799):
+            for mode in ("default", "json"):
+                plan.append((ver, secs, mode))
+
+    def one(c):
+        ver, secs, mode = c
+        sock = socket.socket(socket.AF_INET, socket.SOCK_DGRAM); sock.bind(("127.0.0.1", 0)); sock.settimeout(10)
+        args = [vlib.CLIENT_BIN, "127.0.0.1", str(sock.getsockname()[1]), "-p", "0" if ver == "Google" else "13", "-z", "-t", "6",
+                "-k", LT_PK.hex()] + (["-j"] if mode == "json" else [])
+        for attempt in range(3):
+            pr = subprocess.Popen(args, stdout=subprocess.PIPE, stderr=subprocess.PIPE, text=True)
+            try:
+                req, peer = sock.recvfrom(65536)
+                midp = secs * 10**6 + 654321 if ver == "Google" else secs
+                sock.sendto(refserver.respond(ver, LT, OK1, [(req, nonce_of(ver, req))], 0, midp), peer)
+            except socket.timeout:
+                pass
+            try:
+                out, err = pr.communicate(timeout=15)
+            except subprocess.TimeoutExpired:
+                pr.kill(); out, err = pr.communicate()
+            if "Timeout waiting" not in err:
+                break
+        sock.close()
+        return pr.returncode, out, err
+
+    with ThreadPoolExecutor(max_workers=8) as ex:
+        outs = list(ex.map(one, plan))
+    for (ver, secs, mode), (rc, out, err) in zip(plan, outs):
+        ctx.evaluations += 1
+        ctx.count("format:" + mode)
+        rep = {"cmd": "client-format", "ver": ver, "midpoint_secs": secs, "mode": mode, "rc": rc, "stdout": out[-300:], "stderr": err[-300:]}
+        lines = [l for l in out.splitlines() if l and not l.startswith(("Valid signature", "INVALID"))]
+        try:
+            if rc != 0 or not lines:
+                raise ValueError("no time printed")
+            if mode == "json":
+                d = js.loads(lines[-1]); text = d["midpoint"]
+                if d["verified"] is not True or d["merkle_index"] != 0 or d["radius"] != (5000000 if ver == "Google" else 5):
+                    raise ValueError("JSON fields")
+            else:
+                text = lines[-1]
+            got = calendar.timegm(tm.strptime(text, "%b %d %Y %H:%M:%S UTC"))
+        except Exception as e:
+            ctx.violation("property", "honest response (midpoint %d s) not printed as its time in the %s format: %s" % (secs, mode, e), rep); continue
+        if got != secs:
+            ctx.violation("property", "the %s format prints %r = %d s but the signed midpoint is %d s" % (mode, text, got, secs), rep); continue
+        ctx.nontriv("format:%s:%s:%d" % (ver, mode, secs))
+        ctx.traces_validated += 1
 
 
 def real_server_runs(ctx):
